@@ -48,7 +48,18 @@ def build_pkg(case):
     from vf.gen.extensions import build_extension
     from vf.interp import Interp
 
-    return Package([Interp().run(p) for p in case["modules"]], [build_extension(e, eager=len(e["name"]) % 2 == 0) for e in case["extensions"]])
+    mods = [Interp().run(p) for p in case["modules"]]
+    exts = [build_extension(e, eager=len(e["name"]) % 2 == 0) for e in case["extensions"]]
+    if mods and exts:
+        # a node that names an operation of a shipped extension but carries its OWN description and signature (written
+        # against another release of the extension): the package carries documents, decoding re-interprets nothing
+        from hugr import ops, tys
+
+        for x_ in exts:
+            for name_ in sorted(x_.operations)[:1]:
+                mods[0].add_node(ops.Custom(name_, tys.FunctionType([tys.Bool], [tys.Bool, tys.Unit]),
+                                            "the node's own description", x_.name, []), mods[0].root)
+    return Package(mods, exts)
 
 
 def _is_value_error(name):
